@@ -342,7 +342,7 @@ class PlainQuantity(Generic[MagnitudeT], PrettyIPython, SharedRegistryObject):
 
         return not bool(tmp.dimensionality)
 
-    _dimensionality: UnitsContainerT | None = None
+    _dimensionality: tuple[UnitsContainerT, UnitsContainerT] | None = None
 
     @property
     def dimensionality(self) -> UnitsContainerT:
@@ -352,10 +352,14 @@ class PlainQuantity(Generic[MagnitudeT], PrettyIPython, SharedRegistryObject):
         dict
             Dimensionality of the PlainQuantity, e.g. ``{length: 1, time: -1}``
         """
-        if self._dimensionality is None:
-            self._dimensionality = self._REGISTRY._get_dimensionality(self._units)
+        # the memo is only valid for the units it was computed from: in-place
+        # operations (//=, *=, **=, ito with a context) replace self._units
+        memo = self._dimensionality
+        if memo is None or memo[0] is not self._units:
+            memo = (self._units, self._REGISTRY._get_dimensionality(self._units))
+            self._dimensionality = memo
 
-        return self._dimensionality
+        return memo[1]
 
     def check(self, dimension: UnitLike) -> bool:
         """Return true if the quantity's dimension matches passed dimension."""
